@@ -7,6 +7,15 @@ BASELINE_OFF = "for m in $(cat /w/out/gomods.txt); do MF=$(cd /repo/$m && . /w/o
 
 # id -> (level text, level_note, technique)
 CLAIMED = {
+ "C17": ("structural analysis of configuration handling: ParseConfig = protojson.Unmarshal with default options into a fresh message, returned unchanged; exactly three defaults (1/4/100) each ⇔ its own getter returned 0 on the same message; defaults stored into a proto.Clone or fresh literal, never the caller's object, and no balancer field aliases it; configuration written only by initializeConfig, reachable only while gb.cfg == nil; method table name → same entry's affinity; GCPMultiEndpoint stores/returns clones and serialises the caller's config with protojson.Marshal under the balancer's name",
+         "protojson's accepted language and losslessness are trusted library behaviour; last-writer-wins for duplicate method names is not judged",
+         "static analysis: provenance/alias analysis + truth-table equivalences + who-may-write on go/ssa"),
+ "C18": ("structural analysis of the prober helpers: clamp dominates backoff's return, header-before-trailer decision list with first-match return and no unguarded index, name flags confined by constant patterns that regexp/syntax proves anchored and slash-free with failures reported, validated flags reach the resource builders by plain copies and builders format only those fields, probe types nil-error exactly for six literals, the qps accept-region (extracted predicate evaluated by constant folding on 14 probe values incl. NaN/denormal/boundaries) yields a positive in-range interval, payload hash is SHA-256 of the returned payload",
+         "backoff >= base and monotonicity are floating-point statements that are not decided; the qps check is exhaustive only for the probe values, which include both boundaries of the representable interval range",
+         "static analysis: reaching conditions + provenance + regexp/syntax on constants + constant folding of the extracted predicate"),
+ "C19": ("structural analysis of the checksum codec: wrapped Marshal(v) once with error pass-through before anything else, empty prefix buffer receiving exactly EncodeVarint(16381 = (2047<<3)|5, a 2-byte varint) then EncodeFixed32(crc32.Checksum(payload, Castagnoli table)), result append(prefix, payload...) with nil error, Unmarshal delegates",
+         "byte-level behaviour of proto.Buffer, hash/crc32 and the wrapped codec is trusted; that field 2047 is unknown to every message is assumed",
+         "static analysis: constant folding + call ordering + provenance on go/ssa"),
  "C11": ("typestate analysis of the reflective traversal: every kind-sensitive reflect.Value call is dominated by a Kind() test of the same value admitting only legal kinds (frozen precondition table), index bounded by Len() of the same value, residual reflect panics converted to an error by a recover barrier at the entry, keys only from String() of a String-kind value at the end of the path, errors exactly on kind failures, in-order full fan-out with error propagation, start+1 recursion bounded by the path, locator split on '.', traversal from reflect.ValueOf(message) at index 0",
          "equality with an independent reference traversal for every value needs execution; strings.Title and the reflect precondition table are trusted",
          "static analysis: kind-typestate reaching conditions (dynamic atoms per reflect.Value) + loop/recursion structure + provenance on go/ssa"),
